@@ -144,6 +144,9 @@ def fixtures():
     def nothing(d):
         pass
 
+    def huge_photon(d):
+        d.photon.array = np.full(d.geometry.shape, 1.0e19)
+
     cg, cm, pc, cc = "pyxel.models.charge_generation.", "pyxel.models.charge_measurement.", "pyxel.models.photon_collection.", "pyxel.models.charge_collection."
     return [
         ("shot_noise/poisson", "CCD", photon, pc + "shot_noise", {"type": "poisson"}),
@@ -159,6 +162,13 @@ def fixtures():
         ("output_node_noise_cmos", "CMOS", signal, cm + "output_node_noise_cmos", {"readout_noise": 0.01, "readout_noise_std": 0.001}),
         ("readout_noise_saphira", "APD", signal, cm + "readout_noise_saphira", {"roic_readout_noise": 0.01, "controller_noise": 0.001}),
         ("ktc_noise", "CCD", signal, cm + "ktc_noise", {"node_capacitance": 30e-15}),
+        # flux above numpy's Poisson limit: the model raises on the unchanged tree (recorded as a fixture error);
+        # a fallback that draws outside the seeded region would make it "work" and is then judged like any other model
+        ("shot_noise/poisson-huge-flux", "CCD", huge_photon, pc + "shot_noise", {"type": "poisson"}),
+        # later sample of a multi-readout schedule: the kTC branch of nghxrg only draws when int(time / time_step) > 1
+        ("nghxrg/ktc-later-readout", "CMOS", pixel, cm + "nghxrg",
+         {"_shape": (16, 16), "_times": [1.0, 2.0, 3.0], "_step_index": 2, "n_output": 1, "reference_pixel_border_width": 0,
+          "noise": [{"ktc_bias_noise": {"ktc_noise": 10.0, "bias_offset": 20.0, "bias_amp": 2.0}}, {"white_read_noise": {"rd_noise": 5.0, "ref_pixel_noise_ratio": 0.8}}]}),
         ("charge_deposition", "CCD", nothing, cg + "charge_deposition", {"flux": 100.0, "step_size": 1.0, "energy_mean": 1.0, "energy_spread": 0.1, "stopping_power_curve": str(common.REPO / "pyxel/models/charge_generation/data/protons-in-silicon_stopping-power.csv")}),
     ]
 
@@ -197,10 +207,15 @@ def run_model_fixture(fx, seed, prior, fault_before=False, warmup_seed=None):
     label, kind, prep, dotted, kwargs = fx
     kwargs = dict(kwargs)
     temperature = kwargs.pop("_temperature", 150.0)
-    det = pyx.make_detector(kind, 6, 5, environment={"temperature": temperature})
-    det.set_readout(times=[1.0], start_time=0.0, non_destructive=False)
+    rows, cols = kwargs.pop("_shape", (6, 5))
+    times = kwargs.pop("_times", [1.0])
+    step_index = kwargs.pop("_step_index", 0)
+    det = pyx.make_detector(kind, rows, cols, environment={"temperature": temperature})
+    det.set_readout(times=times, start_time=0.0, non_destructive=False)
     det.empty()
-    det.time, det.time_step, det.pipeline_count = 1.0, 1.0, 0
+    det.time = float(times[step_index])
+    det.time_step = float(times[step_index] - (times[step_index - 1] if step_index else 0.0))
+    det.pipeline_count = step_index
     prep(det)
     func = evaluate_reference(dotted)
     if warmup_seed is not None:
